@@ -250,6 +250,11 @@ class MachineVariables(LogMixin):
         except KeyError:
             pass
         else:
+            # subscribers of this variable (e.g. templates) have to learn that it is gone
+            self.machine.events.post('machine_var_' + name,
+                                     value=None,
+                                     prev_value=prev_value['value'],
+                                     change=True)
             if self.machine_var_monitor:
                 for callback in self.machine.monitors['machine_vars']:
                     callback(name=name, value=None,
@@ -266,8 +271,14 @@ class MachineVariables(LogMixin):
         For example, if you pass startswit='player' and endswith='score', this
         method will match and remove player1_score, player2_score, etc.
         """
+        removed = {}
         for var in list(self.machine_vars.keys()):
             if var.startswith(startswith) and var.endswith(endswith):
-                del self.machine_vars[var]
+                removed[var] = self.machine_vars.pop(var)
 
         self._write_machine_vars_to_disk()
+        for var, prev_value in removed.items():
+            self.machine.events.post('machine_var_' + var,
+                                     value=None,
+                                     prev_value=prev_value['value'],
+                                     change=True)
